@@ -370,6 +370,8 @@ def run(R):
         for nf in ((1,) if quick else (1, 2)):
             items.append(("stream", nbits, nchans, nf, 3))
     items.append(("ts",))
+    from .. import kvalid
+    kvalid.validate(R, ["fold"])
     parts = R.pmap(work, items)
     R.vacuity_witness("c11", sum(p.reached for p in parts) > 0)
     # twin: the cell assignment must depend on the period (another period gives another cell for some sample)
